@@ -305,6 +305,9 @@ class _AdbIOManagerAsync(object):
             await self._send(msg, adb_info)
 
             adb_info.transport_timeout_s = auth_timeout_s
+
+            # The user has ``auth_timeout_s`` to accept the connection, so do not give up on a partially received response before then
+            adb_info.read_timeout_s = float('inf') if auth_timeout_s is None else max(adb_info.read_timeout_s, auth_timeout_s)
             _, _, maxdata, _ = await self._read_expected_packet_from_device([constants.CNXN], adb_info)
             return True, maxdata
 
